@@ -707,7 +707,7 @@ result_t DirectProtocolHandler::setState(BusState state, result_t result, bool f
       logDebug(lf_bus, "notify request: %s", getResultCode(result));
       bool restart = m_currentRequest->notify(
         result == RESULT_ERR_SYN && (m_state == bs_recvCmdAck || m_state == bs_recvRes)
-        ? RESULT_ERR_TIMEOUT : result, m_response);
+        ? RESULT_ERR_TIMEOUT : (result > RESULT_OK ? RESULT_OK : result), m_response);
       if (restart) {
         m_currentRequest->resetBusLostRetries();
         m_nextRequests.push(m_currentRequest);
